@@ -192,7 +192,7 @@ def derivedSafe (pa ps sw : Rat) : Bool :=
 def c04 (pa ps : Option Rat) (sw z : Option Rat) : Verdict :=
   match pa, ps, sw with
   | some pa, some ps, some sw =>
-    if sw = 0 then .skip "zero scale"
+    if sw ≤ 0 then .skip "non-positive scale"
     else if !(derivedSafe M pa ps sw) then .skip "out of range"
     else match z with
       | none => .fail "finite in-range operands gave a non-finite derived result"
@@ -213,4 +213,57 @@ def c05fit (eligScales : List Rat) (wElig : Bool) (sw mag tol : Rat) : Verdict :
     "result unit exceeds the magnitude although a smaller eligible unit exists"
 
 end Oracle
+
+/-! ### error propagation for straight-line amount arithmetic
+
+`Approx` pairs the EXACT value `v` of an expression with a bound `err` on the distance
+between `v` and what the amount type computes for it; `ok` records that every
+intermediate result stayed in the safe range.  (Soundness: `Lemmas/Approx.lean`.) -/
+
+structure Approx where
+  v : Rat
+  err : Rat
+  ok : Bool := true
+  deriving Repr, Inhabited
+
+namespace Approx
+variable (M : ErrModel)
+
+def exact (q : Rat) : Approx := ⟨q, 0, true⟩
+
+def mul (a b : Approx) : Approx :=
+  let ev := a.v * b.v
+  let perr := ratAbs a.v * b.err + ratAbs b.v * a.err + a.err * b.err
+  let r := M.E (ratAbs ev + perr)
+  ⟨ev, perr + r, a.ok && b.ok && M.safe (ratAbs ev + perr + r)⟩
+
+/-- `none` when the divisor cannot be told from zero -/
+def div (a b : Approx) : Option Approx :=
+  if ratAbs b.v ≤ b.err then none
+  else
+    let lo := ratAbs b.v - b.err
+    let ev := a.v / b.v
+    let perr := (ratAbs a.v * b.err + ratAbs b.v * a.err) / (ratAbs b.v * lo)
+    let r := M.E (ratAbs ev + perr)
+    some ⟨ev, perr + r, a.ok && b.ok && M.safe (ratAbs ev + perr + r)⟩
+
+def add (a b : Approx) : Approx :=
+  let ev := a.v + b.v
+  let perr := a.err + b.err
+  let r := M.Ea (ratAbs ev + perr)
+  ⟨ev, perr + r, a.ok && b.ok && M.safe (ratAbs a.v + a.err) && M.safe (ratAbs b.v + b.err)
+    && M.safe (ratAbs ev + perr + r)⟩
+
+/-- verdict: the observed value `z` lies within the propagated bound -/
+def judge (x : Option Approx) (z : Option Rat) (why : String) : Verdict :=
+  match x with
+  | none => .skip "divisor within rounding error of zero"
+  | some x =>
+    if !x.ok then .skip "out of range"
+    else match z with
+      | none => .fail ("finite in-range operands gave a non-finite result: " ++ why)
+      | some z => check (ratAbs (z - x.v) ≤ x.err) why
+
+end Approx
+
 end Qty
